@@ -1,6 +1,8 @@
 // Package props holds the per-property rule instances (DESIGN.md section 4).
 package props
 
+import "strings"
+
 import "thunderlint/internal/an"
 
 // Registry maps property ids to their checkers.
@@ -9,4 +11,30 @@ var Registry = map[string]func(*an.Ctx){}
 func register(id, explanation string, f func(*an.Ctx)) {
 	Registry[id] = f
 	an.Explanations[id] = explanation
+}
+
+// listedFunc looks a function up in a name-keyed table. Closures are looked up
+// under their own name and under the name of the function they are written in
+// (an entry "pkg.F$1" therefore covers every closure of F: the position of a
+// closure among its siblings is not something a rule should depend on).
+func listedFunc(m map[string]string, name string) bool {
+	if _, ok := m[name]; ok {
+		return true
+	}
+	strip := func(s string) string {
+		if i := strings.Index(s, "$"); i >= 0 {
+			return s[:i]
+		}
+		return s
+	}
+	base := strip(name)
+	if base == name {
+		return false
+	}
+	for k := range m {
+		if strip(k) == base {
+			return true
+		}
+	}
+	return false
 }
